@@ -109,6 +109,7 @@ public:
 		~DisableQueueNotify()
 		{
 			--queue->queueNotifyCounter;
+			EVENTPP_VERIF_POINT("un.queue.dqn.after_decrement");
 
 			if(queue->doCanNotifyQueueAvailable() && ! queue->emptyQueue()) {
 				queue->queueListConditionVariable.notify_one();
@@ -182,6 +183,7 @@ public:
 			QueuedEventArgumentsType(std::forward<A>(args)...)
 		});
 
+		EVENTPP_VERIF_POINT("un.queue.enqueue.before_notify");
 		if(doCanProcess()) {
 			queueListConditionVariable.notify_one();
 		}
@@ -199,6 +201,7 @@ public:
 			QueuedEventArgumentsType(std::forward<A>(args)...)
 		});
 
+		EVENTPP_VERIF_POINT("un.queue.enqueue.before_notify");
 		if(doCanProcess()) {
 			queueListConditionVariable.notify_one();
 		}
@@ -211,11 +214,13 @@ public:
 	
 	void clearEvents()
 	{
+		EVENTPP_VERIF_POINT("un.queue.precheck");
 		if(! queueList.empty()) {
 			BufferedItemList tempList;
 
 			{
 				std::lock_guard<Mutex> queueListLock(queueListMutex);
+				EVENTPP_VERIF_POINT("cs.queue.swap");
 				std::swap(queueList, tempList);
 			}
 
@@ -225,6 +230,7 @@ public:
 				}
 
 				std::lock_guard<Mutex> queueListLock(freeListMutex);
+				EVENTPP_VERIF_POINT("cs.queue.recycle");
 				freeList.splice(freeList.end(), tempList);
 			}
 		}
@@ -232,6 +238,7 @@ public:
 
 	bool process()
 	{
+		EVENTPP_VERIF_POINT("un.queue.precheck");
 		if(! queueList.empty()) {
 			BufferedItemList tempList;
 
@@ -241,6 +248,7 @@ public:
 
 			{
 				std::lock_guard<Mutex> queueListLock(queueListMutex);
+				EVENTPP_VERIF_POINT("cs.queue.swap");
 				std::swap(queueList, tempList);
 			}
 
@@ -254,6 +262,7 @@ public:
 				}
 
 				std::lock_guard<Mutex> queueListLock(freeListMutex);
+				EVENTPP_VERIF_POINT("cs.queue.recycle");
 				freeList.splice(freeList.end(), tempList);
 				
 				return true;
@@ -265,6 +274,7 @@ public:
 
 	bool processOne()
 	{
+		EVENTPP_VERIF_POINT("un.queue.precheck");
 		if(! queueList.empty()) {
 			BufferedItemList tempList;
 
@@ -274,7 +284,9 @@ public:
 
 			{
 				std::lock_guard<Mutex> queueListLock(queueListMutex);
+				EVENTPP_VERIF_POINT("cs.queue.takeone");
 				if(! queueList.empty()) {
+					EVENTPP_VERIF_POINT("cs.queue.takeone.splice");
 					tempList.splice(tempList.end(), queueList, queueList.begin());
 				}
 			}
@@ -288,6 +300,7 @@ public:
 				item.clear();
 
 				std::lock_guard<Mutex> queueListLock(freeListMutex);
+				EVENTPP_VERIF_POINT("cs.queue.recycle");
 				freeList.splice(freeList.end(), tempList);
 				
 				return true;
@@ -300,6 +313,7 @@ public:
 	template <typename Predictor>
 	bool processIf(Predictor && predictor)
 	{
+		EVENTPP_VERIF_POINT("un.queue.precheck");
 		if(! queueList.empty()) {
 			BufferedItemList tempList;
 			BufferedItemList idleList;
@@ -310,6 +324,7 @@ public:
 
 			{
 				std::lock_guard<Mutex> queueListLock(queueListMutex);
+				EVENTPP_VERIF_POINT("cs.queue.swap");
 				std::swap(queueList, tempList);
 			}
 
@@ -337,11 +352,13 @@ public:
 
 				if (! tempList.empty()) {
 					std::lock_guard<Mutex> queueListLock(queueListMutex);
+					EVENTPP_VERIF_POINT("cs.queue.requeue");
 					queueList.splice(queueList.begin(), tempList);
 				}
 
 				if(! idleList.empty()) {
 					std::lock_guard<Mutex> queueListLock(freeListMutex);
+					EVENTPP_VERIF_POINT("cs.queue.recycle.idle");
 					freeList.splice(freeList.end(), idleList);
 					
 					return true;
@@ -355,6 +372,7 @@ public:
 	template <typename Predictor>
 	bool processUntil(Predictor && predictor)
 	{
+		EVENTPP_VERIF_POINT("un.queue.precheck");
 		if(! queueList.empty()) {
 			BufferedItemList tempList;
 			BufferedItemList idleList;
@@ -365,6 +383,7 @@ public:
 
 			{
 				std::lock_guard<Mutex> queueListLock(queueListMutex);
+				EVENTPP_VERIF_POINT("cs.queue.swap");
 				std::swap(queueList, tempList);
 			}
 
@@ -392,11 +411,13 @@ public:
 
 				if (! tempList.empty()) {
 					std::lock_guard<Mutex> queueListLock(queueListMutex);
+					EVENTPP_VERIF_POINT("cs.queue.requeue");
 					queueList.splice(queueList.begin(), tempList);
 				}
 
 				if(! idleList.empty()) {
 					std::lock_guard<Mutex> queueListLock(freeListMutex);
+					EVENTPP_VERIF_POINT("cs.queue.recycle.idle");
 					freeList.splice(freeList.end(), idleList);
 					
 					return true;
@@ -438,8 +459,10 @@ public:
 
 	bool peekEvent(QueuedEvent * queuedEvent)
 	{
+		EVENTPP_VERIF_POINT("un.queue.precheck");
 		if(! queueList.empty()) {
 			std::lock_guard<Mutex> queueListLock(queueListMutex);
+			EVENTPP_VERIF_POINT("cs.queue.peek");
 			
 			if(! queueList.empty()) {
 				*queuedEvent = queueList.front().get();
@@ -452,13 +475,16 @@ public:
 
 	bool takeEvent(QueuedEvent * queuedEvent)
 	{
+		EVENTPP_VERIF_POINT("un.queue.precheck");
 		if(! queueList.empty()) {
 			BufferedItemList tempList;
 
 			{
 				std::lock_guard<Mutex> queueListLock(queueListMutex);
 
+				EVENTPP_VERIF_POINT("cs.queue.takeone");
 				if(! queueList.empty()) {
+					EVENTPP_VERIF_POINT("cs.queue.takeone.splice");
 					tempList.splice(tempList.end(), queueList, queueList.begin());
 				}
 			}
@@ -468,6 +494,7 @@ public:
 				tempList.front().clear();
 
 				std::lock_guard<Mutex> queueListLock(freeListMutex);
+				EVENTPP_VERIF_POINT("cs.queue.recycle");
 				freeList.splice(freeList.end(), tempList);
 
 				return true;
@@ -517,10 +544,13 @@ protected:
 	void doEnqueue(QueuedEvent && item)
 	{
 		BufferedItemList tempList;
+		EVENTPP_VERIF_POINT("un.queue.enqueue.freecheck");
 		if(! freeList.empty()) {
 			{
 				std::lock_guard<Mutex> queueListLock(freeListMutex);
+				EVENTPP_VERIF_POINT("cs.queue.enqueue.free");
 				if(! freeList.empty()) {
+					EVENTPP_VERIF_POINT("cs.queue.enqueue.free.splice");
 					tempList.splice(tempList.end(), freeList, freeList.begin());
 				}
 			}
@@ -534,6 +564,7 @@ protected:
 		it->set(std::move(item));
 
 		std::lock_guard<Mutex> queueListLock(queueListMutex);
+		EVENTPP_VERIF_POINT("cs.queue.enqueue.splice");
 		queueList.splice(queueList.end(), tempList, it);
 	}
 
